@@ -73,11 +73,14 @@ func (s *sup) start(start, exec *core.FuncDecl) {
 	c, a := s.c, s.a
 	name := core.FuncName(start.Obj)
 	pv := paramVars(start)
-	c.Walk("R12", &core.Config{Follow: followNames("stop")}, core.Entry{Decl: start}, func(p *core.Path) {
+	c.Walk("R12", &core.Config{Follow: func(f *types.Func) bool {
+		return f.Pkg() != nil && RelPkg(f.Pkg().Path()) == s.pkg && f.Origin() != exec.Obj
+	}}, core.Entry{Decl: start}, func(p *core.Path) {
 		g := prepare(c, p)
 		reset := map[string]bool{}
 		cancelled := false
 		var ctxFrom *types.Var
+		derived := map[*types.Var]*types.Var{}
 		for i, ev := range p.Events {
 			for _, f := range []string{"err", "success", "exited"} {
 				want := "false"
@@ -91,10 +94,22 @@ func (s *sup) start(start, exec *core.FuncDecl) {
 			if callsField(ev, s.f("ctxCancel")) {
 				cancelled = true
 			}
-			if ev.Kind == core.KAssign && ev.Var != nil && core.FieldName(ev.Var) == s.f("ctx") && ev.Rhs != nil {
+			if ev.Kind == core.KAssign && ev.Rhs != nil && ev.RhsIdx <= 0 {
+				// x (a local or the record's ctx field) = context.WithCancel(<ctx>) …
 				if call, ok := unparen(ev.Rhs).(*ast.CallExpr); ok && len(call.Args) > 0 {
 					if f, _ := typeutil.Callee(ev.Frame.Info(), call).(*types.Func); f != nil && f.Pkg() != nil && f.Pkg().Path() == "context" {
-						ctxFrom = identVar(call.Args[0], ev.Frame)
+						src := identVar(call.Args[0], ev.Frame)
+						if ev.Var != nil && core.FieldName(ev.Var) == s.f("ctx") {
+							ctxFrom = src
+						} else if lv := identVar(ev.Lhs, ev.Frame); lv != nil {
+							derived[lv] = src
+						}
+					}
+				}
+				// … or r.ctx = <such a local>
+				if ev.Var != nil && core.FieldName(ev.Var) == s.f("ctx") {
+					if lv := identVar(ev.Rhs, ev.Frame); lv != nil && derived[lv] != nil {
+						ctxFrom = derived[lv]
 					}
 				}
 			}
@@ -142,7 +157,9 @@ func (s *sup) execute(exec, start *core.FuncDecl) {
 		pos   token.Pos
 	}
 	var arms []armPath
-	c.Walk("R12", &core.Config{}, core.Entry{Decl: exec}, func(p *core.Path) {
+	c.Walk("R12", &core.Config{Follow: func(f *types.Func) bool {
+		return f.Pkg() != nil && RelPkg(f.Pkg().Path()) == s.pkg && f.Origin() != start.Obj && f.Origin() != exec.Obj
+	}}, core.Entry{Decl: exec}, func(p *core.Path) {
 		g := prepare(c, p)
 		armed := false
 		sawCurrent := false
@@ -166,7 +183,7 @@ func (s *sup) execute(exec, start *core.FuncDecl) {
 				armed = true
 				a.requireGuard("R5c", name+"/arm-retry", g, i, false, fand(current, armWant), "arming the retry timer")
 			}
-			if ev.Kind == core.KCall && ev.Callee != nil && ev.Callee.Name() == "Reset" && strings.Contains(core.ExprString(ev.Call.Fun), "retryBo") {
+			if (ev.Kind == core.KCall || ev.Kind == core.KEnter) && ev.Callee != nil && ev.Callee.Name() == "Reset" && strings.Contains(core.ExprString(ev.Call.Fun), "retryBo") {
 				a.requireGuard("R5c", name+"/reset-backoff", g, i, false, fand(current, fld(s.f("success"))), "resetting the back-off")
 			}
 			if g.lits[i] != nil && strings.Contains(g.lits[i].f.String(), current.String()) && g.lits[i].val {
@@ -227,9 +244,9 @@ func (s *sup) api(start, exec *core.FuncDecl) {
 		return f.Pkg() != nil && RelPkg(f.Pkg().Path()) == s.pkg && f.Origin() != exec.Obj
 	}
 	forceAllowed := map[string]bool{s.pkg + ".(*" + s.owner + ").restartRoutineLocked": true}
-	setCtxRestart, setCtxCtx := "?restart", "?ctx"
+	var setCtxRestart, setCtxCtx *types.Var
 	if d := c.Prog.Decl(c.Prog.LookupFunc(s.pkg, s.owner, "SetContext")); d != nil {
-		setCtxRestart, setCtxCtx = paramRole(c, d, isBoolType), paramRole(c, d, isContextType)
+		setCtxRestart, setCtxCtx = paramWhere(d, isBoolType), paramWhere(d, isContextType)
 	}
 	var entries []core.Entry
 	for _, d := range c.Prog.Funcs {
@@ -247,6 +264,7 @@ func (s *sup) api(start, exec *core.FuncDecl) {
 			g := prepare(c, p)
 			cancelCalls := 0
 			ctxStored := map[*types.Var]bool{} // locals stored into the container ctx on this path
+			ctxStoredTerm := map[string]bool{}
 			var retryStops []int
 			started, detached, rearmed := false, false, false
 			var lookupOK *types.Var // the comma-ok variable of the latest lookup in the slot
@@ -267,6 +285,10 @@ func (s *sup) api(start, exec *core.FuncDecl) {
 				if assignsField(ev, s.ctxFld, "") && ev.Rhs != nil {
 					if v := identVar(ev.Rhs, ev.Frame); v != nil {
 						ctxStored[v] = true
+						ctxStoredTerm[g.builderAt(i).varTerm(v, ev.Frame)] = true
+					}
+					if isNilExpr(ev.Rhs, ev.Frame) {
+						ctxStoredTerm["nil"] = true
 					}
 				}
 				// call sites of start
@@ -296,7 +318,7 @@ func (s *sup) api(start, exec *core.FuncDecl) {
 					a.note("R12", site+"/force-constant", ev.Pos, bad, "forceRestart is a constant, true only in restartRoutineLocked and the retry timer", why, p)
 					if s.pkg == "routine" && strings.HasSuffix(enclosingName(c, ev), ".SetContext") {
 						a.requireGuard("R12", site+"/restart-guard", g, i, true,
-							fand(for_(eq("nil", s.f("err")), fld(setCtxRestart)), fnot(eq(setCtxCtx, "nil"))), "SetContext restarting the routine")
+							fand(for_(eq("nil", s.f("err")), g.builderAt(i).varFormula(setCtxRestart, ev.Frame)), fnot(eq(g.builderAt(i).varTerm(setCtxCtx, ev.Frame), "nil"))), "SetContext restarting the routine")
 					}
 				}
 				// slot writes: R4 (b)
@@ -343,8 +365,10 @@ func (s *sup) api(start, exec *core.FuncDecl) {
 				ev := p.Events[i]
 				lits := g.litsBefore(len(p.Events), false)
 				noCtx, _ := implies(lits, eq("nil", s.ctxFld))
-				for v := range ctxStored {
-					if ok, _ := implies(lits, eq("nil", c.Role(v))); ok {
+				for t := range ctxStoredTerm {
+					if t == "nil" {
+						noCtx = true
+					} else if ok, _ := implies(lits, eq("nil", t)); ok {
 						noCtx = true
 					}
 				}
@@ -392,12 +416,19 @@ func (s *sup) setContextPath(g *gpath, p *core.Path, cancelCalls int) {
 		return
 	}
 	lits := g.litsBefore(len(p.Events), false)
-	ctxRole := "?ctx"
-	if d := c.Prog.EnclosingDecl(p.Events[stored].Pos); d != nil {
-		ctxRole = paramRole(c, d, isContextType)
+	// "the context did not change": any comparison of the container's ctx field with something
+	same := &formula{kind: fConst, val: false}
+	for _, l := range lits {
+		ats := map[string]*formula{}
+		l.f.atoms(ats)
+		for n := range ats {
+			if strings.HasPrefix(n, "EQ(") && strings.Contains(n, s.ctxFld) && !strings.Contains(n, "nil") {
+				same = for_(same, atom(n))
+			}
+		}
 	}
 	// same context, or no record, or already failed (its context was cancelled when it exited)
-	exempt := for_(for_(eq(ctxRole, s.ctxFld), eq("nil", s.slot)), fnot(eq("nil", s.f("err"))))
+	exempt := for_(for_(same, eq("nil", s.slot)), fnot(eq("nil", s.f("err"))))
 	if s.pkg == "keyed" {
 		// keyed iterates over the records: a path without loop iteration keeps no record
 		hasIter := false
@@ -538,7 +569,7 @@ func (s *sup) keyedExtras() {
 			g := prepare(c, p)
 			var pos token.Pos
 			for i, ev := range p.Events {
-				if ev.Kind == core.KCall && ev.Callee != nil && ev.Callee.Name() == "SetKey" {
+				if (ev.Kind == core.KCall || ev.Kind == core.KEnter) && ev.Callee != nil && ev.Callee.Name() == "SetKey" {
 					setSec, pos = g.sec[i], ev.Pos
 					if !holdsLock(ev, "keyed.KeyedRefCount.mtx") {
 						setSec = -2
@@ -567,7 +598,7 @@ func (s *sup) keyedExtras() {
 					a.note("R16", name+"/test-and-set-prologue", ev.Pos, !swapped, "Release wins an atomic test-and-set before it touches the reference table",
 						"Release enters the critical section without an atomic test-and-set: releasing a reference twice counts twice", p)
 				}
-				if ev.Kind == core.KCall && ev.Callee != nil && ev.Callee.Name() == "RemoveKey" {
+				if (ev.Kind == core.KCall || ev.Kind == core.KEnter) && ev.Callee != nil && ev.Callee.Name() == "RemoveKey" {
 					refsRole := "?refs"
 					if v := localWhere(d, d.Decl, func(v *types.Var, _ *ast.Ident) bool { _, ok := v.Type().Underlying().(*types.Slice); return ok }); v != nil {
 						refsRole = c.Role(v)
@@ -587,7 +618,7 @@ func (s *sup) keyedExtras() {
 				if ev.Kind == core.KLoop {
 					iter = true
 				}
-				if ev.Kind == core.KCall && ev.Callee != nil && ev.Callee.Name() == "Store" && strings.Contains(core.ExprString(ev.Call.Fun), "rel") {
+				if (ev.Kind == core.KCall || ev.Kind == core.KEnter) && ev.Callee != nil && ev.Callee.Name() == "Store" && strings.Contains(core.ExprString(ev.Call.Fun), "rel") {
 					marked = true
 				}
 				if ev.Kind == core.KCall && ev.Builtin == "delete" && iter {
